@@ -84,19 +84,37 @@ func (cp *FreeList) flushBlock(blk types.Block) (types.Work, error) {
 	return types.Work(types.SizeBytesLen + types.OffBytesLen), nil
 }
 
+// Pending returns the number of blocks that were put and not flushed yet.
+func (cp *FreeList) Pending() int {
+	cp.poolLk.RLock()
+	defer cp.poolLk.RUnlock()
+	return len(cp.blockPool)
+}
+
 // Flush writes outstanding work and buffered data to the freelist file.
 func (cp *FreeList) Flush() (types.Work, error) {
+	return cp.FlushFirst(-1)
+}
+
+// FlushFirst writes the n blocks that were put first, and buffered data, to
+// the freelist file. Blocks put after them stay pending for a later flush. A
+// negative n means all blocks.
+func (cp *FreeList) FlushFirst(n int) (types.Work, error) {
 	cp.flushLock.Lock()
 	defer cp.flushLock.Unlock()
 
 	cp.poolLk.Lock()
-	if len(cp.blockPool) == 0 {
+	if n < 0 || n > len(cp.blockPool) {
+		n = len(cp.blockPool)
+	}
+	if n == 0 {
 		cp.poolLk.Unlock()
 		return 0, nil
 	}
-	blocks := cp.blockPool
-	cp.blockPool = make([]types.Block, 0, blockPoolSize)
-	cp.outstandingWork = 0
+	blocks := cp.blockPool[:n]
+	rest := cp.blockPool[n:]
+	cp.blockPool = append(make([]types.Block, 0, blockPoolSize), rest...)
+	cp.outstandingWork = types.Work(len(rest) * (types.SizeBytesLen + types.OffBytesLen))
 	cp.poolLk.Unlock()
 
 	vhook.Point("fl.flush.swapped")
